@@ -19,6 +19,38 @@ def load_mstate(name):
     return hdr, edges
 
 
+_NUM = None
+
+
+def approx_match(got, gold):
+    """Number::exponentiate and Math.pow are implementation-approximated (ECMA-262 6.1.6.1.3, 21.3.2.26):
+    for programs that use them, numbers may differ from the reference engine's in the last place
+    (relative 2^-51).  Everything that is not a number must still be identical."""
+    import re
+    global _NUM
+    if _NUM is None:
+        _NUM = re.compile(r"-?\d+p-?\d+|-?\d+(?:\.\d+)?(?:e[+-]?\d+)?")
+
+    def val(t):
+        if "p" in t:
+            m, e = t.split("p")
+            return int(m) * 2.0 ** int(e)
+        return float(t)
+    gold = gold.replace("\\n", "\n")
+    got = got.replace("\\n", "\n")
+    for g in gold.split(prog.ALT):
+        if _NUM.split(got) != _NUM.split(g):
+            continue
+        a, b = _NUM.findall(got), _NUM.findall(g)
+        if len(a) == len(b) and all(x == y or abs(val(x) - val(y)) <= 2.0 ** -51 * max(abs(val(x)), abs(val(y))) for x, y in zip(a, b)):
+            return True
+    return False
+
+
+def uses_pow(src):
+    return "**" in src or "Math.pow" in src
+
+
 def cluster_of(family, cid, got, gold):
     try:
         return _cluster_of(family, cid, got, gold)
@@ -105,6 +137,7 @@ def run(tier, seed, only=None):
     nontrivial = set()
     perfam = {}
     samples = []
+    approx = 0
     for f in fams:
         cases = gen01.FAMILIES[f]()
         gold = prog.read_golden("C01." + f, f, cases)
@@ -118,6 +151,9 @@ def run(tier, seed, only=None):
             if g.startswith("ok|"):
                 nontrivial.add(g)
             if not prog.golden_match(got, g):
+                if uses_pow(c.src) and approx_match(got, g):
+                    approx += 1
+                    continue
                 bad += 1
                 chk.fail(f + "\0" + c.src, got, "%s: tsrun %s, reference %s" % (c.id, got[:150], g[:150]),
                          {"family": f, "id": c.id, "src": c.src, "expected": g}, cluster=cluster_of(f, c.id, got, g))
@@ -157,9 +193,10 @@ def run(tier, seed, only=None):
         perfam["mstate"] = {"cases": len(edges), "disagree": bad, "blocked_edges": blocked, "graph_depth": hdr["depth"], "tree_depth": hdr["treedepth"]}
         samples.append({"family": "mstate", "history": [gen01.STATE_SIGMA[k] for k in edges[len(edges) // 2]["hist"]]})
     chk.coverage = {"states": max(states, 1), "transitions": max(transitions, 1), "traces_validated_against_impl": total, "evaluations": total,
-                    "distinct_nontrivial": len(nontrivial), "families": perfam, "samples": samples,
+                    "distinct_nontrivial": len(nontrivial), "families": perfam, "samples": samples, "matched_within_last_place_of_pow": approx,
                     "rule": "every member of each closed family (operator x operand alphabet, statement skeletons to nesting depth 2-3, scope/pattern/class/generator-operation matrices, built-in x receiver x argument alphabets) plus every edge of the reference-defined M-state graph and its undeduplicated depth-2 tree is executed on tsrun in a fresh interpreter and compared with the reference engine's observation (value via canonical in-program printer, log, error class); non-trivial = distinct successful reference observations; states/transitions are those of the M-state graph"}
     chk.assumptions = ["reference engine node v20 (V8) defines ECMAScript behaviour on the restricted feature set", "observations use an in-program canonical printer validated against node on the value alphabet",
+                       "programs using ** or Math.pow (implementation-approximated in ECMA-262) may differ from the reference engine in the last place of a number (relative 2^-51); everything else must be identical",
                        "M-state: extensions of a history that already diverged are blocked, not judged (violating-edge rule)"]
     return chk.finish(exhaustive=True)
 
@@ -174,7 +211,7 @@ def replay(path):
         return 2
     print("tsrun:    " + r1[:300])
     print("expected: " + rp["expected"][:300])
-    if not prog.golden_match(r1, rp["expected"]):
+    if not prog.golden_match(r1, rp["expected"]) and not (uses_pow(rp["src"]) and approx_match(r1, rp["expected"])):
         print("VIOLATION property=C01 replay=%s" % path)
         return 1
     return 0
